@@ -15,6 +15,17 @@ def _simple_arg(e):
                                                              for x in ast.walk(e)))
 
 
+def _kwarg_only_forwarded(h):
+  """The **kwargs parameter of h is used only to be passed on as **kwargs in calls: then the keywords of a call site can
+  be written in its place."""
+  name = h.node.args.kwarg.arg
+  splats = {id(k.value) for c in ast.walk(h.node) if isinstance(c, ast.Call) for k in c.keywords if k.arg is None and isinstance(k.value, ast.Name) and k.value.id == name}
+  for x in ast.walk(h.node):
+    if isinstance(x, ast.Name) and x.id == name and id(x) not in splats:
+      return False
+  return bool(splats)
+
+
 def inlinable(h):
   """'value' for a helper whose only return is its last top-level statement, 'procedure' for one without any
   return statement, else None (early returns, generators, *args)."""
@@ -23,7 +34,9 @@ def inlinable(h):
     return None
   if any(isinstance(s, (ast.Yield, ast.YieldFrom, ast.Global, ast.Nonlocal)) for s in walk_no_nested(h.node)):
     return None
-  if h.node.args.vararg or h.node.args.kwarg:
+  if h.node.args.vararg:
+    return None
+  if h.node.args.kwarg and not _kwarg_only_forwarded(h):
     return None
   rets = [s for s in walk_no_nested(h.node) if isinstance(s, ast.Return)]
   if not rets:
@@ -206,6 +219,8 @@ def _resolve_simple_callee(f, call):
     top = f
     while top is not None:
       if fn.id in top.nested:
+        if fn.id in getattr(top, 'ambiguous_nested', ()):
+          return None
         return top.nested[fn.id]
       top = top.outer
     return None
@@ -424,7 +439,7 @@ def helper_shape(h):
   if any(d_ not in ('staticmethod', 'classmethod') and not (d_ in ('lru_cache', 'cache') and plain_) for d_ in decs_):
     return None
   a = h.node.args
-  if a.vararg or a.kwarg:
+  if a.vararg or (a.kwarg and not _kwarg_only_forwarded(h)):
     return None
   inner = list(walk_no_nested(h.node))
   if any(isinstance(s, (ast.Global, ast.Nonlocal)) for s in inner):
@@ -483,8 +498,12 @@ def _bind(h, call, selfexpr, tag, stmts, result, taken=None):
   if any(isinstance(x, ast.Starred) for x in args) or any(k.arg is None for k in call.keywords) or len(args) > len(params):
     return None
   kw = {k.arg: k.value for k in call.keywords}
+  extras = []
   if set(kw) - set(params) - set(kwonly):
-    return None
+    if a.kwarg is None:
+      return None
+    extras = [k for k in call.keywords if k.arg not in params and k.arg not in kwonly]
+    kw = {k_: v_ for k_, v_ in kw.items() if k_ in params or k_ in kwonly}
   for i, p in enumerate(params + kwonly):
     if i < len(args) and i < len(params):
       v = args[i]
@@ -545,8 +564,20 @@ def _bind(h, call, selfexpr, tag, stmts, result, taken=None):
       return e
     if isinstance(e, (ast.FunctionDef, ast.ClassDef)):
       return e
+    if a.kwarg is not None and isinstance(e, ast.Call) and any(k.arg is None and isinstance(k.value, ast.Name) and k.value.id == a.kwarg.arg for k in e.keywords):
+      # f(x, **kwargs) in the helper: the keywords of this call site take the place of **kwargs
+      kws_ = []
+      for k in e.keywords:
+        if k.arg is None and isinstance(k.value, ast.Name) and k.value.id == a.kwarg.arg:
+          kws_ += [ast.keyword(arg=x_.arg, value=dataflow.clone(x_.value)) for x_ in extras]
+        else:
+          kws_.append(k)
+      e.keywords = kws_
     return dataflow._map_children(e, sub)
 
+  # `del param  # unused` in the helper unbinds the helper's own parameter: it has no counterpart at the call site
+  all_params = {x.arg for x in a.posonlyargs + a.args + a.kwonlyargs}
+  stmts = [s for s in stmts if not (isinstance(s, ast.Delete) and all(isinstance(t, ast.Name) and t.id in all_params for t in s.targets))]
   out = [sub(dataflow.clone(s)) for s in stmts]
   res = sub(dataflow.clone(result)) if result is not None else None
   for s in pre + out:
@@ -589,6 +620,8 @@ class _Flattener:
       top = info
       while top is not None:
         if fn.id in top.nested:
+          if fn.id in getattr(top, 'ambiguous_nested', ()):
+            return None, None       # defined once per branch: not one function
           return top.nested[fn.id], None
         top = top.outer
       q = '%s.%s' % (info.module.name, fn.id)
